@@ -292,6 +292,8 @@ class C26(ByteChanSpec):
         if pre.verdict == "oos":
             stats["discard:out-of-scope"] += 1
             return Outcome(DISCARD, events, stats=stats, ticks=pre.reads)
+        if pre.verdict == "hang":
+            return Outcome(VIOLATION, events, sig="C26/deserialiser-does-not-terminate", detail="the bitstream deserialiser the viewer is built on issued %d read() calls on a %d-byte stream without finishing (step budget exceeded)" % (pre.reads, len(data)), stats=stats, nontrivial=changed, ticks=pre.reads)
         fs = S.SimFS("/sim")
         fs.put("/sim/in/stream.vc2", data)
         clock = S.TimeShim(1000.0, case["clock"])
